@@ -11,10 +11,15 @@
    - the signature pass decompresses the FIRST member alone (Multistream(false))
      and walks its tar entries; a pending meta-header is read and dropped
      (archive/tar returns a clean EOF), zero blocks end the walk;
-   - the parse pass (IndexFromArchive) decompresses ALL members as ONE tar
-     stream; there a meta-header left pending by the first member applies to
-     the first entry of the second member, and an end-of-archive marker in the
-     first member ends the whole walk.
+   - the parse pass (IndexFromArchive) decompresses the members it is given as
+     ONE tar stream; there a meta-header left pending by one member applies to
+     the first entry of the next, and an end-of-archive marker ends the whole
+     walk. Since fix c87da01 the parse pass is given only the verified bytes
+     (the members after the first) when checking is on; with checking off it
+     is given the whole archive. Before the fix it was always given the whole
+     archive, and what the unsigned first member left behind (pending
+     meta-header, zero blocks) renamed, resized or hid signed entries
+     (replays C04-F1/F2 in the harness corpus).
    Both are transcribed below. gzip and tar byte decoding themselves are not
    modelled (the harness sweeps them on the real code); hashes, signature
    verification and the APKINDEX text parser are Section variables. *)
@@ -220,7 +225,7 @@ Section Oracles.
                  | Ok [] => PErr                                  (* "no signature with known key" *)
                  | Ok sigs =>
                      if existsb (sig_verifies rest) sigs          (* first verifying signature wins *)
-                     then index_from_archive a
+                     then index_from_archive rest                 (* fix c87da01: only the verified bytes are parsed *)
                      else PErr
                  | _ => PErr
                  end
